@@ -216,8 +216,9 @@ def sig_matches(entry_sig, sig):
 # ---------------------------------------------------------------- check context
 
 class Ctx:
-    def __init__(self, prop, tier, seed):
+    def __init__(self, prop, tier, seed, replay_file=None):
         self.prop, self.tier, self.seed = prop, tier, seed
+        self.replay_file = replay_file   # known before the stale replays are removed: the file may be one of them
         self.t0 = time.time()
         self.cov = {"obligations": 0, "discharged": 0, "checker_cmd": "", "trusted_base": [],
                     "evaluations": 0, "distinct_nontrivial": 0, "rule": "", "samples": []}
@@ -230,7 +231,7 @@ class Ctx:
         os.makedirs(self.workdir, exist_ok=True)
         os.makedirs(os.path.join(VERIF, "replays"), exist_ok=True)
         for f in os.listdir(os.path.join(VERIF, "replays")):  # replays of earlier runs of this property are stale
-            if f.startswith(prop + "-") and not getattr(self, "replay_file", None):
+            if f.startswith(prop + "-") and not self.replay_file:
                 os.remove(os.path.join(VERIF, "replays", f))
 
     @property
